@@ -94,13 +94,15 @@ impl Monitor for Ir {
             _ => (*rng.pick(&[cc as f32, (0.9 * cc) as f32]), *rng.pick(&[1.5, 2.0, 48000.0 / 44100.0, 3.7])),
         };
         let n: usize = if len > 1024 { 8 } else { 16 };
-        let desc = J::obj().with("window", J::s(win.name())).with("sinc_len", J::u(len)).with("oversampling", J::u(n)).with("f_cutoff", J::f(fc as f64)).with("construction_ratio", J::f(r0)).with("calculate_cutoff", J::f(cc));
+        let desc = J::obj().with("window", J::s(win.name())).with("sinc_len", J::u(len)).with("note", J::s("30% of the cases request a length 1..7 below sinc_len; it must be rounded up")).with("oversampling", J::u(n)).with("f_cutoff", J::f(fc as f64)).with("construction_ratio", J::f(r0)).with("calculate_cutoff", J::f(cc));
         set_desc(&desc);
         let mut cr = CaseResult { desc, ..Default::default() };
         if ctx.describe {
             return cr;
         }
-        let h = match extract_ir::<f64>(len, n, win, fc, r0) {
+        // the requested length may be any value that rounds up to `len`
+        let len_req = if rng.chance(0.3) { len - rng.ui(1, 7) } else { len };
+        let h = match extract_ir::<f64>(len_req, n, win, fc, r0) {
             Ok(h) => h,
             Err(e) => {
                 cr.viols.push(Viol::new("C01", "impulse_response_extraction", e));
@@ -285,6 +287,10 @@ impl Band {
         cfg.max_rel = 1.0;
         if cfg.kind.is_sinc() {
             cfg.sinc_len = 8 * rng.ui(8, 64); // [64, 512]
+            if rng.chance(0.3) {
+                // documented: 'rounded up to the nearest multiple of 8' - all edges below use the rounded-up length
+                cfg.sinc_len -= rng.ui(1, 7);
+            }
             let cc = cfg.window.cutoff(cfg.flen());
             cfg.f_cutoff = match rng.ui(0, 3) {
                 0 => cc as f32,
